@@ -2435,3 +2435,7 @@ mod tests {
         );
     }
 }
+
+#[cfg(kani)]
+#[path = "/verif/kani/parquet/encodings/decoding.rs"]
+mod verif_kani;
